@@ -5,6 +5,7 @@ PROPERTY NoResurrection
 PROPERTY ParseTotal
 PROPERTY NearMissRefused
 PROPERTY OnlyDiagonalVerifies
+PROPERTY SourceIsNoParameter
 PROPERTY TamperIsForever
 PROPERTY ReencodeKeepsVerdict
 CHECK_DEADLOCK FALSE
